@@ -149,6 +149,9 @@ func runPlan(e *childEnv) {
 	cal := e.cal
 	rnd := e.rand("plan-cases")
 	n := e.pick(120_000, 16_000_000) / e.shards
+	if e.light {
+		n = e.pick(40_000, 2_000_000) / e.shards
+	}
 	edges := oversampledEdges(cal)
 	for i := 0; i < n; i++ {
 		pc := genPlanCase(rnd, cal, edges)
@@ -235,7 +238,7 @@ func checkPlan(e *childEnv, pc planCase, idx int) {
 		if decide {
 			r.Violation(class, msg, w())
 		} else {
-			r.Count("plan/odd_interval_reported_only/"+strings.TrimPrefix(class, "C13/plan/"), 1)
+			r.Count("plan/odd_interval_reported_only/"+strings.TrimPrefix(strings.TrimPrefix(class, "C13/plan/"), "C13/"), 1)
 		}
 	}
 	// the stored slot grid of the chosen interval, from the calendar
@@ -243,7 +246,23 @@ func checkPlan(e *childEnv, pc planCase, idx int) {
 	_, reqLast, bE := cal.slotOf(st, pc.End)
 	_, psSlot, _ := cal.slotOf(st, ps)
 	_, peSlot, _ := cal.slotOf(st, pe)
+	// daylight saving: the stored slot grid of a family is anchored at the family start (elapsed time), the planner
+	// truncates on the wall clock of the timestamp itself; when the clock was moved between the family start and the
+	// timestamp by an amount that is not a multiple of the storage interval the two grids differ (known defect).
+	shifted := gridShiftedInsideFamily(cal, st, pc.Start) || gridShiftedInsideFamily(cal, st, pc.End) ||
+		gridShiftedInsideFamily(cal, st, ps) || gridShiftedInsideFamily(cal, st, pe)
+	if cal.hasDST() {
+		if shifted {
+			r.Count("plan/dst/requests_on_slot_grid_shifted_by_transition_inside_family/"+typ, 1)
+		}
+		if cal.dstSituation(pc.Start) != "" || cal.dstSituation(pc.End) != "" {
+			r.Count("plan/dst/requests_starting_or_ending_on_transition_day", 1)
+		}
+	}
 	cls := func(what string) string {
+		if shifted {
+			return classDstPlanPrefix + what + "/" + typ
+		}
 		// lindb truncates by epoch multiples while the stored slot grid is anchored at local family starts:
 		// cases where the zone's UTC offset is not a multiple of the storage interval get their own class family
 		if offsetNotMultiple(cal, st, pc.Start) || offsetNotMultiple(cal, st, pc.End) {
@@ -303,4 +322,19 @@ func checkPlan(e *childEnv, pc planCase, idx int) {
 func offsetNotMultiple(cal *calendar, interval, ts int64) bool {
 	_, off := cal.at(ts).Zone()
 	return (int64(off)*1000)%interval != 0
+}
+
+// classDstPlanPrefix + {range-unaligned,range-misses-requested-slot,range-wider-than-requested-slots} + "/" + type
+const classDstPlanPrefix = "C13/dst/plan/slot-grid-shifted-by-transition-inside-family/"
+
+// gridShiftedInsideFamily reports whether the zone offset at ts differs from the offset at the start of the
+// (calendar) family of ts by an amount that is not a multiple of the storage interval.
+func gridShiftedInsideFamily(cal *calendar, interval, ts int64) bool {
+	if !cal.hasDST() {
+		return false
+	}
+	b := cal.bucketOf(typeOf(interval), ts)
+	_, o1 := cal.at(ts).Zone()
+	_, o0 := cal.at(b.FamStart).Zone()
+	return (int64(o1-o0)*1000)%interval != 0
 }
